@@ -48,13 +48,22 @@ def gen_on(rnd, depth, eq_only=False):
 
 def gen_case(rnd):
     l, r = gen_side(rnd, LCOLS), gen_side(rnd, RCOLS)
+    mixed = rnd.random() < 0.1
+    if mixed:
+        # keys whose %v texts coincide across kinds ("1" vs 1): Compare treats them as equal, so must the hash path
+        for row in l:
+            row["a"] = rnd.choice([1, "1", 2, "2"])
+        for row in r:
+            row["m"] = rnd.choice([1, "1", 2, "2", 3])
     spelling = rnd.choice(list(JOIN_KINDS))
     eq_only = rnd.random() < 0.45
     on = gen_on(rnd, rnd.randint(0, 2), eq_only)
     jt = join_type(spelling)
     frm = ["join", jt, table("l", "x"), table("r", "y"), on]
     q = select([["star"]], frm)
-    return mk_case({"l": l, "r": r}, q, mode="multiset", tag=spelling)
+    c = mk_case({"l": l, "r": r}, q, mode="multiset", tag=spelling)
+    c["mixed"] = mixed
+    return c
 
 
 def py_on(on, x, y):
@@ -110,7 +119,7 @@ def explore(chk, rnd, tier):
         # model that faithfully mirrors a wrong implementation)
         from ..common import as_multiset, enc_val
         for c, g, l, v in res:
-            if l["r"] == "ok":
+            if l["r"] == "ok" and not c.get("mixed"):
                 if as_multiset(dec_val(l["v"])) != as_multiset(dec_val(enc_val(textbook(c)))):
                     chk.add_violation("model-vs-textbook", {"sql": c["sql"], "doc": c["doc"], "model": l, "textbook": textbook(c)})
                     break
